@@ -349,6 +349,31 @@ theorem neighbours_exact (n : Nat) (p q : HashParts) (hn : 1 ≤ n) (hn2 : n ≤
     (hq : Valid n q) (hne : q ≠ p) : (∃ dir ∈ dirs8, neighbourParts n p dir = some q) ↔ Touch n p q :=
   ⟨fun ⟨dir, _, h⟩ => neighbour_touch n p q dir hn hn2 hp h, neighbours_complete n p q hn hn2 hp hq hne⟩
 
+/-! ## the 24 cells with 7 neighbours (`neighbours_count`), explicitly -/
+
+/-- the list of the special cells: two per base cell -/
+def specialCells (n : Nat) : List HashParts :=
+  (List.range 12).flatMap fun b =>
+    if b / 4 = 1 then [⟨b, 0, 0⟩, ⟨b, n - 1, n - 1⟩] else [⟨b, 0, n - 1⟩, ⟨b, n - 1, 0⟩]
+
+theorem range12 : List.range 12 = [0, 1, 2, 3, 4, 5, 6, 7, 8, 9, 10, 11] := by decide
+
+theorem specialCells_length (n : Nat) : (specialCells n).length = 24 := by
+  simp [specialCells, range12]
+
+theorem special_iff_mem (n : Nat) (p : HashParts) (hn : 1 ≤ n) (hp : Valid n p) :
+    Special n p ↔ p ∈ specialCells n := by
+  obtain ⟨b, i, j⟩ := p
+  obtain ⟨hb, hi, hj⟩ := hp
+  simp only at hb hi hj
+  refine b12 (P := fun b => Special n ⟨b, i, j⟩ ↔ (⟨b, i, j⟩ : HashParts) ∈ specialCells n) b hb
+    ?_ ?_ ?_ ?_ ?_ ?_ ?_ ?_ ?_ ?_ ?_ ?_ <;>
+  simp [Special, specialCells, range12] <;> omega
+
+theorem specialCells_nodup (n : Nat) (hn : 2 ≤ n) : (specialCells n).Nodup := by
+  simp [specialCells, range12]
+  omega
+
 /-! ## the hypotheses are satisfiable; concrete instances (`n = 4`, depth 2) -/
 
 example : Valid 4 ⟨3, 3, 1⟩ ∧ neighbourParts 4 ⟨3, 3, 1⟩ NE = some ⟨0, 1, 3⟩ ∧ (⟨0, 1, 3⟩ : HashParts) ≠ ⟨3, 3, 1⟩ := by
@@ -380,3 +405,5 @@ end Hpx.TopoNeigh
 #print axioms Hpx.TopoNeigh.neighbours_exact
 #print axioms Hpx.TopoNeigh.vkey_injective
 #print axioms Hpx.TopoNeigh.centerXY_eq
+#print axioms Hpx.TopoNeigh.special_iff_mem
+#print axioms Hpx.TopoNeigh.specialCells_nodup
